@@ -150,6 +150,27 @@ var extraQueries = []string{
 // names the translator itself generates (IdentifierGenerator prefixes and fixed column names)
 var generatedNames = []string{"n0", "e0", "s0", "i0", "pi0", "path", "depth", "n1", "e1", "s1", "ep0", "ex0", "pc0", "root_id", "next_id", "satisfied", "is_cycle", "kind_ids", "properties", "id"}
 
+// where a statement shows a name of the translator's own: "name." (table alias), ".name" (column), "as name", "name as ("
+var ownNameSites = regexp.MustCompile(`\b([a-z_][a-z0-9_]*)\.([a-z_][a-z0-9_]*)\b|\bas ([a-z_][a-z0-9_]*)\b|\b([a-z_][a-z0-9_]*) as \(`)
+
+var sqlWords = map[string]bool{"select": true, "from": true, "where": true, "as": true, "and": true, "or": true, "not": true, "with": true, "recursive": true, "join": true, "on": true, "in": true, "is": true, "null": true, "true": true, "false": true, "array": true, "any": true, "all": true, "exists": true, "case": true, "when": true, "then": true, "else": true, "end": true, "union": true, "order": true, "by": true, "limit": true, "offset": true, "desc": true, "asc": true, "distinct": true, "lateral": true, "unnest": true, "group": true, "having": true, "insert": true, "update": true, "delete": true, "set": true, "values": true, "returning": true, "int8": true, "int4": true, "int2": true, "text": true, "jsonb": true, "bool": true, "float8": true, "numeric": true, "materialized": true, "left": true, "outer": true, "inner": true, "cross": true, "like": true, "ilike": true, "between": true, "using": true, "coalesce": true, "row": true, "count": true}
+
+func stripSQLStrings(sql string) string {
+	var b strings.Builder
+	in := false
+	for i := 0; i < len(sql); i++ {
+		if sql[i] == '\'' {
+			in = !in
+			b.WriteByte(' ')
+			continue
+		}
+		if !in {
+			b.WriteByte(sql[i])
+		}
+	}
+	return b.String()
+}
+
 func TestVerifBoundedTranslate(t *testing.T) {
 	if mode := os.Getenv(vxChildEnv); mode != "" {
 		vxChildMain(mode)
@@ -305,6 +326,55 @@ func TestVerifBoundedTranslate(t *testing.T) {
 				continue
 			} else if compose := composeRenaming(vmZ, vm); substOutsideLiterals(sqlZ, compose) != sqlR {
 				fail("C06 renaming %v to generated-looking names changes more than output aliases for %q:\n  %s\n  %s", vm, tc.Cypher, substOutsideLiterals(sqlZ, compose), sqlR)
+			}
+		}
+		// the translator's OWN names in this very statement: every table alias, CTE name and column name that occurs in
+		// the statement for the fresh names (whatever lowering produced it), given to each of the first three variables
+		// in turn - the statement may change in the spelling of that variable only
+		if sqlZ != "" {
+			taken := map[string]bool{}
+			for _, nn := range vmZ {
+				taken[nn] = true
+			}
+			for _, v := range vars { // a renaming is injective: not a name another variable of the query already has
+				taken[v] = true
+			}
+			var own []string
+			seenOwn := map[string]bool{}
+			for _, m := range ownNameSites.FindAllStringSubmatch(stripSQLStrings(sqlZ), -1) {
+				for _, w := range m[1:] {
+					if w != "" && !taken[w] && !seenOwn[w] && !sqlWords[w] && len(own) < 40 {
+						seenOwn[w] = true
+						own = append(own, w)
+					}
+				}
+			}
+			for vi := 0; vi < len(plainVars) && vi < 3; vi++ {
+				for _, w := range own {
+					cases++
+					vm := map[string]string{}
+					for i, v := range plainVars {
+						vm[v] = fmt.Sprintf("zz%dq", i)
+					}
+					vm[plainVars[vi]] = w
+					renamed := cypher.Copy(model)
+					pm := map[string]string{}
+					for i, p := range prms {
+						pm[p] = "prm" + fmt.Sprint(i)
+					}
+					renameSymbols(renamed, vm, pm)
+					sqlR, _, errR, panR := safeTranslate(renamed, km, nil)
+					switch {
+					case panR != nil:
+						fail("C06 naming variable %q like the translator's own %q makes %q panic: %v", plainVars[vi], w, tc.Cypher, panR)
+					case errR != nil:
+						fail("C06 naming variable %q like the translator's own %q turns the translatable query %q into an error: %v", plainVars[vi], w, tc.Cypher, errR)
+					default:
+						if want := substOutsideLiterals(sqlZ, composeRenaming(vmZ, vm)); want != sqlR {
+							fail("C06 naming variable %q like the translator's own %q changes more than that name for %q:\n  %s\n  %s", plainVars[vi], w, tc.Cypher, want, sqlR)
+						}
+					}
+				}
 			}
 		}
 		// a parameter named like a variable of the query
